@@ -410,3 +410,62 @@ VARIANTS["C15"] = [
         "        weights = weights / gp.sum(weights)\n        imult = gp.where(weights > 0)[0]\n", "        imult = gp.where(weights > 0)[0]\n        weights = weights / gp.sum(weights)\n")], (), ""),
     V("twin-nonzero", "twin", VO, [("        imult = gp.where(weights > 0)[0]\n", "        imult = gp.where(weights != 0)[0]\n")], (), ""),
 ]
+
+# ------------------------------------------------------------------------------------------------ C18
+VARIANTS["C18"] = [
+    V("irfft-n-removed", "fire", FO, [("gp.fft.rfft(w_, axis=-1), n=ns, axis=-1)", "gp.fft.rfft(w_, axis=-1), axis=-1)")], ("D1",), "regression of the F12 repair (odd padded sizes 3, 9, 27, 81 ...)"),
+    V("fshift-irfft-no-n", "fire", FO, [("        W = np.real(scipy.fft.irfft(W, ns, axis=axis))\n", "        W = np.real(scipy.fft.irfft(W, axis=axis))\n")], ("D1",), "odd-length traces come back one sample short"),
+    V("pad-w-short", "fire", FO, [("(w, gp.zeros([*w.shape[:-1], ns - nsw], dtype=w.dtype)), axis=-1", "(w, gp.zeros([*w.shape[:-1], ns - nsx], dtype=w.dtype)), axis=-1")], ("D1",), ""),
+    V("circular-wrap", "fire", FO, [("    ns = ns_optim_fft(nsx + nsw)\n", "    ns = ns_optim_fft(max(nsx, nsw))\n")], ("D1",), ""),
+    V("same-first-floor", "fire", FO, [("        first = int(gp.floor(nsw / 2)) - ((nsw + 1) % 2)\n", "        first = int(gp.floor(nsw / 2))\n")], ("D2",), "even kernels shifted by one sample; agc uses odd windows only"),
+    V("same-last-no-parity", "fire", FO, [("        last = int(gp.ceil(nsw / 2)) + ((nsw + 1) % 2)\n", "        last = int(gp.ceil(nsw / 2))\n")], ("D2",), ""),
+    V("lp-returns-f", "fire", FO, [("        return 1 - filc\n", "        return filc\n")], ("D3",), ""),
+    V("bp-bounds-swapped", "fire", FO, [("_freq_vector(f, b[0:2], typ=\"hp\") * _freq_vector(f, b[2:4], typ=\"lp\")", "_freq_vector(f, b[0:2], typ=\"lp\") * _freq_vector(f, b[2:4], typ=\"hp\")")], ("D3",), ""),
+    V("extrap-swapped", "fire", UT, [("    y[x < bounds[0]] = f(bounds[0])\n    y[x > bounds[1]] = f(bounds[1])\n", "    y[x < bounds[0]] = f(bounds[1])\n    y[x > bounds[1]] = f(bounds[0])\n")], ("D3",), ""),
+    V("fexpand-ilast", "fire", FO, [("    ilast = int((ns + (ns % 2)) / 2)\n", "    ilast = int(ns / 2)\n")], ("D4",), "odd lengths lose one mirrored bin"),
+    V("freduce-no-plus-one", "fire", FO, [("    siz[axis] = int(np.floor(siz[axis] / 2 + 1))\n", "    siz[axis] = int(np.floor(siz[axis] / 2))\n")], ("D4",), ""),
+    V("fscale-mirror", "fire", FO, [("-fsc[slice(-2 + (ns % 2), 0, -1)]", "-fsc[slice(-2, 0, -1)]")], ("D4",), "odd lengths get ns - 1 entries"),
+    V("fscale-si-multiplied", "fire", FO, [("    fsc = np.arange(0, np.floor(ns / 2) + 1) / ns / si  # sample", "    fsc = np.arange(0, np.floor(ns / 2) + 1) / ns * si  # sample")], ("D5",), "identical for si = 1"),
+    V("searchsorted-right", "fire", FO, [("    return sz[np.searchsorted(sz, ns)]\n", "    return sz[np.searchsorted(sz, ns, side=\"right\")]\n")], ("D5",), ""),
+    V("twin-irfft-positional", "twin", FO, [("gp.fft.rfft(w_, axis=-1), n=ns, axis=-1)", "gp.fft.rfft(w_, axis=-1), ns, axis=-1)")], (), ""),
+    V("twin-first-formula", "twin", FO, [("        first = int(gp.floor(nsw / 2)) - ((nsw + 1) % 2)\n", "        first = int(gp.floor((nsw - 1) / 2))\n")], (), ""),
+]
+
+# ------------------------------------------------------------------------------------------------ C07
+VARIANTS["C07"] = [
+    V("inplace-on-input", "fire", FO, [(
+        "    if do_fft:\n        W = scipy.fft.rfft(w, axis=axis)\n    else:\n        W = w\n", "    w *= 1.0\n    if do_fft:\n        W = scipy.fft.rfft(w, axis=axis)\n    else:\n        W = w\n")], ("D1",), ""),
+    V("alias-always", "fire", FO, [(
+        "    if do_fft:\n        W = scipy.fft.rfft(w, axis=axis)\n    else:\n        W = w\n", "    W = w\n    W *= 1\n    if do_fft:\n        W = scipy.fft.rfft(w, axis=axis)\n")], ("D1",), ""),
+    V("irfft-without-ns", "fire", FO, [("        W = np.real(scipy.fft.irfft(W, ns, axis=axis))\n", "        W = np.real(scipy.fft.irfft(W, axis=axis))\n")], ("D2",), ""),
+    V("astype-dropped", "fire", FO, [("        W = W.astype(w.dtype)\n", "")], ("D2",), "float32 in, float64 out"),
+    V("exponent-sign", "fire", FO, [("    W *= np.exp(1j * np.angle(dephas) * s)\n", "    W *= np.exp(-1j * np.angle(dephas) * s)\n")], ("D4",), ""),
+    V("impulse-at-0", "fire", FO, [("    np.put(dephas, 1, 1)\n", "    np.put(dephas, 0, 1)\n")], ("D4",), "no shift at all"),
+    V("s-shape-axis-dropped", "fire", FO, [("        s_shape[axis] = 1\n", "")], ("D3",), ""),
+    V("resync-not-negated", "fire", WF, [("    spike_resync = fshift(spike2, -shift_computed)\n", "    spike_resync = fshift(spike2, shift_computed)\n")], ("D4",), ""),
+    V("twin-ns-keyword", "twin", FO, [("scipy.fft.irfft(W, ns, axis=axis)", "scipy.fft.irfft(W, n=ns, axis=axis)")], (), ""),
+    V("twin-not-iscomplex", "twin", FO, [("    do_fft = np.invert(np.iscomplexobj(w))\n", "    do_fft = not np.iscomplexobj(w)\n")], (), ""),
+]
+
+# ------------------------------------------------------------------------------------------------ C05
+VARIANTS["C05"] = [
+    V("car-operator-dropped", "fire", VO, [("car(x=x[sel, :], collection=None, operator=operator, **kwargs)", "car(x=x[sel, :], collection=None, **kwargs)")], ("D1",), "regression of F5"),
+    V("kfilt-lagc-dropped", "fire", VO, [("                collection=None,\n                lagc=lagc,\n                butter_kwargs=butter_kwargs,\n", "                collection=None,\n                butter_kwargs=butter_kwargs,\n")], ("D1",), "regression of F5"),
+    V("fk-btype-dropped", "fire", VO, [("                ntr_pad=ntr_pad,\n                btype=btype,\n", "                ntr_pad=ntr_pad,\n")], ("D1",), "regression of F5"),
+    V("fk-si-literal", "fire", VO, [("                x[sel, :],\n                si=si,\n", "                x[sel, :],\n                si=0.002,\n")], ("D1",), "default value pinned instead of the caller's"),
+    V("car-scatter-other-rows", "fire", VO, [("            xout[sel, :] = car(x=x[sel, :], collection=None, operator=operator, **kwargs)\n", "            xout[sel, :] = car(x=x[~sel, :], collection=None, operator=operator, **kwargs)\n")], ("D1",), ""),
+    V("destripe-negative-shift", "fire", VO, [("        x = fourier.fshift(x, h[\"sample_shift\"], axis=1)\n", "        x = fourier.fshift(x, -h[\"sample_shift\"], axis=1)\n")], ("D2",), "skew doubled instead of removed; constant-valued test data cannot tell"),
+    V("destripe-shift-after-spatial", "fire", VO, [(
+        "    if neuropixel_version is not None:\n        x = fourier.fshift(x, h[\"sample_shift\"], axis=1)\n    # apply spatial filter only on channels that are inside of the brain\n    if (channel_labels is not None) and (channel_labels is not False):\n        x = interpolate_bad_channels(x, channel_labels, h[\"x\"], h[\"y\"])\n        inside_brain = np.where(channel_labels != 3)[0]\n        x[inside_brain, :] = spatial_fcn(x[inside_brain, :])  # apply the k-filter\n    else:\n        x = spatial_fcn(x)\n",
+        "    # apply spatial filter only on channels that are inside of the brain\n    if (channel_labels is not None) and (channel_labels is not False):\n        x = interpolate_bad_channels(x, channel_labels, h[\"x\"], h[\"y\"])\n        inside_brain = np.where(channel_labels != 3)[0]\n        x[inside_brain, :] = spatial_fcn(x[inside_brain, :])  # apply the k-filter\n    else:\n        x = spatial_fcn(x)\n    if neuropixel_version is not None:\n        x = fourier.fshift(x, h[\"sample_shift\"], axis=1)\n")],
+      ("D2",), ""),
+    V("batch-last-branch-no-shift", "fire", VO, [("                chunk = fourier.fshift(chunk, s=h[\"sample_shift\"])\n                ind2save[1] = NBATCH\n", "                ind2save[1] = NBATCH\n")], ("D2",), "only the last batch of a file loses the re-alignment"),
+    V("dephas-sign", "fire", VO, [("        1j * np.angle(fft_object(dephas)) * h[\"sample_shift\"][:, np.newaxis]\n", "        -1j * np.angle(fft_object(dephas)) * h[\"sample_shift\"][:, np.newaxis]\n")], ("D2",), "stencil path shifts the other way than fshift"),
+    V("spatial-on-all-rows", "fire", VO, [("        x[inside_brain, :] = spatial_fcn(x[inside_brain, :])  # apply the k-filter\n", "        x[inside_brain, :] = spatial_fcn(x)[inside_brain, :]  # apply the k-filter\n")], ("D3",), "outside-brain channels feed the filter"),
+    V("inside-brain-label-2", "fire", VO, [("        inside_brain = np.where(channel_labels != 3)[0]\n        x[inside_brain, :] = spatial_fcn(x[inside_brain, :])  # apply the k-filter\n", "        inside_brain = np.where(channel_labels != 2)[0]\n        x[inside_brain, :] = spatial_fcn(x[inside_brain, :])  # apply the k-filter\n")], ("D3",), ""),
+    V("car-axis-1", "fire", VO, [("        x = x - np.median(x, axis=0)\n", "        x = x - np.median(x, axis=1)[:, np.newaxis]\n")], ("D4",), ""),
+    V("car-average-is-median", "fire", VO, [("        x = x - np.mean(x, axis=0)\n", "        x = x - np.median(x, axis=0)\n")], ("D4",), ""),
+    V("agc-gain-rescaled", "fire", VO, [("    return x, gain\n\n\ndef fk(", "    gain = gain / gp.max(gain)\n    return x, gain\n\n\ndef fk(")], ("D5",), ""),
+    V("kfilt-forgets-gain", "fire", VO, [("        xf = xf[ntr_pad:-ntr_pad, :]\n    return xf * gain\n\n\ndef saturation", "        xf = xf[ntr_pad:-ntr_pad, :]\n    return xf\n\n\ndef saturation")], ("D5",), ""),
+    V("twin-positional-forwarding", "twin", VO, [("car(x=x[sel, :], collection=None, operator=operator, **kwargs)", "car(x[sel, :], None, operator, **kwargs)")], (), ""),
+]
